@@ -29,7 +29,7 @@ pub fn id_set(max: usize) -> impl Strategy<Value = Vec<u64>> {
     let block = (id(), 1usize..12, 1u64..3).prop_map(move |(start, n, step)| {
         (0..n as u64).map(|k| start.saturating_add(k * step).min(end - 1)).collect::<Vec<u64>>()
     });
-    proptest::collection::vec(block, 0..=max.max(1)).prop_map(move |blocks| {
+    proptest::collection::vec(block, (max / 4).max(1)..=max.max(1)).prop_map(move |blocks| {
         let mut v: Vec<u64> = blocks.into_iter().flatten().collect();
         v.sort_unstable();
         v.dedup();
